@@ -36,7 +36,7 @@ VOCAB = ["id", "tag", "service", "mark", "protocol", "generated", "ftime", "ltim
          "cport", "sport", "port", "chost", "shost", "host", "cbytes", "sbytes", "bytes", "sort", "limit", "group",
          "or", "and", "then", "OR", "AND", "THEN", "(", ")", "-", "!", "@a:", "@b:", ".conv", ".b64",
          ":1", ":80", ":1:2", "::", ":", ":a,b", ":tcp", ":udp,tcp", ":1.2.3.4/24", ":::1", ":-5m", ":-1h:-5m", ':"x y"', ':"', '="a""b"',
-         ":@id@", ":@a:cport@+1", ":@sport@+@sport@", ":x", ":[0-9]+", ":(", ":\\)", " ", "  ", "\t", "\n", ",", "@", '"']
+         ":@id@", ":@a:cport@+1", ":@sport@+@sport@", ":x", ":id,", ":,id", ":id,,ftime", ':""', ':" "', ":,", ":-", ":-id", ':"id, ,-ftime"', "=", ":[0-9]+", ":(", ":\\)", " ", "  ", "\t", "\n", ",", "@", '"']
 
 
 def g_tokens(rng):
@@ -161,6 +161,62 @@ def g_wide(rng):
     return t.encode()
 
 
+# lists with empty / blank / duplicated / negated / quoted-empty elements, for directive terms and for every filter key
+SORTKEYS = ["id", "ftime", "ltime", "cbytes", "sbytes", "chost", "shost", "cport", "sport", "nope", "ID", "tag"]
+EMPTY_FIXED = ["sort:id,", "sort:,id", "sort:id,,ftime", 'sort:""', 'sort:" "', 'sort:"id, ,ftime"', "sort:,", "sort:,,", "sort:-", 'sort:"-"', 'sort:" - "', "sort:-,id",
+               "sort:id,-", 'sort:"-id, -"', "sort:--id", "sort:-id,-id", "sort:id,id,id", 'sort:"  id  ,  -ftime  "', "sort=id,", 'SORT:""', "cport:80 sort:id,", "(sort:,id)",
+               "-sort:id,", "sort:id, or cport:1", "@a:sort:id,", 'limit:""', 'limit:" "', "limit:,", "limit:1,", "limit:-", "limit:+1", 'limit:" 5 "', "limit:5,5", "limit:0", "limit:1e3",
+               'group:""', 'group:" "', "group:,", 'group:","', 'group:"@"', 'group:"@@"', 'group:"@,@"', 'group:"@a@,,@b@"', "group:-", 'group:"-"',
+               "id:,", "id:1,", "id:,1", "id:1,,2", 'id:""', 'id:" "', 'id:"1, ,2"', "cport:,", "cport:1,", 'cport:""', 'cport:" "', "bytes:,", 'bytes:""',
+               "tag:a,", "tag:,a", 'tag:" "', 'tag:"a, ,b"', 'service:""', "protocol:,tcp", "protocol:tcp,,udp", 'protocol:""', 'protocol:" "',
+               "chost:,1.2.3.4", "chost:1.2.3.4,", "chost:1.2.3.4,,::1", 'chost:""', 'chost:" "', 'host:"1.2.3.4, "', "chost:/", "chost:/24", "chost:1.2.3.4/,", "chost:@chost@/,",
+               "ftime:,", "ftime:-5m,", "ftime:,-5m", 'ftime:""', 'ftime:" "', 'time:"-5m:, "', "ltime::,", "id::,", "cport:1:,2", "cport:-", "cport:+", 'cport:"-"', "id:@id@,", "id:@@", "id:@,@",
+               'cdata:""', 'cdata:" "', 'cdata.b64:""', "cdata.:", 'cdata.:""', 'data:"" then cdata:""', '-cdata:""', 'cdata:"" or sort:""']
+
+
+def g_emptylist(rng):
+    """a directive (sort / limit / group) or filter term whose value list has empty, blank, duplicated, negated elements"""
+    r = rng.random()
+    if r < 0.5:
+        key = rng.choice(["sort", "sort", "sort", "limit", "group", "Sort", "LIMIT"])
+        pool = SORTKEYS if key.lower() == "sort" else (["1", "5", "0", "10", "x"] if key.lower() == "limit" else ["a", "@x@", "@a:y@", "x@y@z"])
+    else:
+        key = rng.choice(["id", "cport", "port", "bytes", "tag", "service", "protocol", "chost", "host", "ftime", "time", "cdata", "data"])
+        pool = {"tag": ["a", "b"], "service": ["a"], "protocol": ["tcp", "udp", "@a:protocol@"], "chost": ["1.2.3.4", "::1/64", "@shost@"],
+                "host": ["10.0.0.1/8", "@a:chost@"], "ftime": ["-5m", "1h:", ":-3s", "@ltime@"], "time": ["-5m:", "-1h:-5m"],
+                "cdata": ["x", "y"], "data": ["x"]}.get(key, ["1", "80", "1:5", "@id@", "@a:cport@+1"])
+    n = rng.choice([1, 2, 2, 3, 4])
+    els = []
+    for _ in range(n):
+        x = rng.random()
+        if x < 0.3:
+            e = rng.choice(["", "", " ", "  ", "-", " - ", "\t"])
+        else:
+            e = rng.choice(pool)
+            if x < 0.5:
+                e = "-" + e
+            elif x < 0.6:
+                e = " " + e + " "
+            elif x < 0.65 and els:
+                e = els[-1]
+        els.append(e)
+    v = ",".join(els)
+    if rng.random() < 0.12:
+        v = ""
+    quoted = (" " in v or "\t" in v or v == "" or rng.random() < 0.3)
+    v = v.replace("\t", "\t" if not quoted else " ")
+    sep = rng.choice([":", ":", ":", "="])
+    t = key + sep + ('"' + v.replace('"', '""') + '"' if quoted else v)
+    if rng.random() < 0.15:
+        t = "@" + rng.choice("ab") + ":" + t
+    r = rng.random()
+    if r < 0.25:
+        t = rng.choice(["cport:80 ", "tag:a ", "cdata:x then ", "-", "(", "id:1 or "]) + t + (")" if r < 0.04 else "")
+    elif r < 0.4:
+        t = t + rng.choice([" cport:80", " or tag:a", " sort:id", " limit:1", " then cdata:x", ")"])
+    return t.encode()
+
+
 def g_deep(rng):
     depth = rng.choice([5, 6, 7, 8])
     def rec(d):
@@ -239,8 +295,8 @@ def g_wellformed(rng):
     return c03.render(tr, rng).encode()
 
 
-REGIMES = [("wellformed", 0.22), ("arith", 0.14), ("longlist", 0.03), ("wide", 0.03), ("deep", 0.06), ("negdisj", 0.08),
-           ("tokens", 0.14), ("mutate", 0.20), ("badvalues", 0.10)]
+REGIMES = [("wellformed", 0.21), ("arith", 0.13), ("longlist", 0.03), ("wide", 0.03), ("emptylist", 0.05), ("deep", 0.06), ("negdisj", 0.08),
+           ("tokens", 0.14), ("mutate", 0.18), ("badvalues", 0.09)]
 
 
 def gen_inputs(rng, n, tier):
@@ -251,6 +307,9 @@ def gen_inputs(rng, n, tier):
     for v in WIDE_FIXED:
         inputs.append(v.encode())
         regs.append("wide")
+    for v in EMPTY_FIXED:
+        inputs.append(v.encode())
+        regs.append("emptylist")
     while len(inputs) < n:
         x, acc = rng.random(), 0.0
         reg = REGIMES[-1][0]
@@ -267,6 +326,8 @@ def gen_inputs(rng, n, tier):
             b = g_longlist(rng, tier)
         elif reg == "wide":
             b = g_wide(rng)
+        elif reg == "emptylist":
+            b = g_emptylist(rng)
         elif reg == "deep":
             b = g_deep(rng)
         elif reg == "negdisj":
@@ -274,9 +335,9 @@ def gen_inputs(rng, n, tier):
         elif reg == "tokens":
             b = g_tokens(rng)
         elif reg == "mutate":
-            b = mutate(rng, rng.choice([g_wellformed, g_wellformed, g_wellformed, g_arith, g_arith, g_negdisj, g_negdisj, g_wide])(rng))
+            b = mutate(rng, rng.choice([g_wellformed, g_wellformed, g_wellformed, g_arith, g_arith, g_negdisj, g_negdisj, g_wide, g_emptylist])(rng))
         else:
-            b = mutate(rng, rng.choice(BADVALUES).encode("utf-8", "replace"))
+            b = mutate(rng, rng.choice(BADVALUES + EMPTY_FIXED).encode("utf-8", "replace"))
         inputs.append(b)
         regs.append(reg)
     return inputs, regs
@@ -611,7 +672,7 @@ def main(tier, seed, replay=None):
         ],
         "evaluations": len(inputs),
         "distinct_nontrivial": len(distinct),
-        "rule": "seeded inputs: well-formed queries (all filter kinds, depth<=4), arithmetic with repeated variables (factors != +-1), value lists up to 2000 entries, number lists mixing single values with narrow and very wide ranges (numerals near 2^16, 2^32, 2^63; %d fixed ones), nesting depth 5-8, negated disjunctions, random token sequences of the lexer vocabulary, byte-level mutations (insert/delete/replace/duplicate/bit flip, non-UTF-8 included), %d hand-written malformed values and their mutations; each parsed in a subprocess under a %.1fs watchdog, accepted ones parsed twice and compared on 12 valuations; non-trivial = accepted input with >= 2 conjuncts, distinct by bytes" % (len(WIDE_FIXED), len(BADVALUES), WATCHDOG_S),
+        "rule": "seeded inputs: well-formed queries (all filter kinds, depth<=4), arithmetic with repeated variables (factors != +-1), value lists up to 2000 entries, number lists mixing single values with narrow and very wide ranges (numerals near 2^16, 2^32, 2^63; %d fixed ones), directive and filter terms whose value lists have empty / blank / duplicated / negated / quoted-empty elements (%d fixed ones), nesting depth 5-8, negated disjunctions, random token sequences of the lexer vocabulary, byte-level mutations (insert/delete/replace/duplicate/bit flip, non-UTF-8 included), %d hand-written malformed values and their mutations; each parsed in a subprocess under a %.1fs watchdog, accepted ones parsed twice and compared on 12 valuations; non-trivial = accepted input with >= 2 conjuncts, distinct by bytes" % (len(WIDE_FIXED), len(EMPTY_FIXED), len(BADVALUES), WATCHDOG_S),
         "inputs": len(inputs), "verdicts": counts, "per_regime": per_regime, "worker_restarts": rinfo,
         "parsed_twice_and_compared": twice,
         "judged_bound_conjuncts": BOUND,
